@@ -2,9 +2,9 @@
 verus! {
 #[verifier::external_body]
 pub struct Policy { inner: Box<u8> }
-#[derive(Clone, Copy, PartialEq, Eq, Debug)]
+#[derive(Clone, Copy, PartialEq, Eq, Debug, Structural)]
 pub struct RegisteredPoStProof { pub id: i64 }
-#[derive(Clone, Copy, PartialEq, Eq, Debug)]
+#[derive(Clone, Copy, PartialEq, Eq, Debug, Structural)]
 pub struct RegisteredSealProof { pub id: i64 }
 impl Rt {
     #[verifier::external_body]
